@@ -59,6 +59,9 @@ pub struct Compiler<'a> {
     current_index: CardIndex,
     /// handle of the function being compiled, unique across modules
     current_function_handle: Handle,
+    /// handles of the function and closure labels; card labels live in the same table and must
+    /// never replace one of these
+    function_labels: std::collections::BTreeSet<Handle>,
     function_id: usize,
 }
 
@@ -122,6 +125,7 @@ impl<'a> Compiler<'a> {
             scope_depth: vec![0],
             current_index: CardIndex::default(),
             current_function_handle: Handle::default(),
+            function_labels: Default::default(),
             current_imports: Default::default(),
             function_id: 0,
         }
@@ -148,6 +152,7 @@ impl<'a> Compiler<'a> {
         }
         self.program = CaoCompiledProgram::default();
         self.next_var = VariableId(0);
+        self.function_labels.clear();
         self.compile_stage_1(compilation_unit)?;
         self.compile_stage_2(compilation_unit)?;
 
@@ -155,6 +160,20 @@ impl<'a> Compiler<'a> {
         // the last instruction is a trap for native to cao-lang function calls
         self.push_instruction(Instruction::Exit);
         Ok(mem::take(&mut self.program))
+    }
+
+    /// Labels of functions and closures: the targets of calls. Two of them with the same handle
+    /// can not be told apart at runtime
+    fn add_function_label(&mut self, handle: Handle, pos: u32) -> CompilationResult<()> {
+        if !self.function_labels.insert(handle) {
+            return Err(self.error(CompilationErrorPayload::InternalError));
+        }
+        self.program
+            .labels
+            .0
+            .insert(handle, Label::new(pos))
+            .unwrap();
+        Ok(())
     }
 
     fn error(&self, pl: CompilationErrorPayload) -> CompilationError {
@@ -200,11 +219,7 @@ impl<'a> Compiler<'a> {
             self.current_index = CardIndex::new(il, 0);
             self.current_function_handle = main_function.handle;
             // main can be referenced like any other function, so it needs a label too
-            self.program
-                .labels
-                .0
-                .insert(main_function.handle, Label::new(0))
-                .unwrap();
+            self.add_function_label(main_function.handle, 0)?;
             self.scope_begin();
             self.process_function(main_function)?;
             self.current_index = CardIndex {
@@ -228,11 +243,7 @@ impl<'a> Compiler<'a> {
             let nodeid_handle = function.handle;
             let handle = u32::try_from(self.program.bytecode.len())
                 .expect("bytecode length to fit into 32 bits");
-            self.program
-                .labels
-                .0
-                .insert(nodeid_handle, Label::new(handle))
-                .unwrap();
+            self.add_function_label(nodeid_handle, handle)?;
 
             self.scope_begin();
             self.process_function(function)?;
@@ -532,11 +543,14 @@ impl<'a> Compiler<'a> {
         let card_byte_index = u32::try_from(self.program.bytecode.len())
             .expect("Expected bytecode length to fit into 32 bits");
         let nodeid_hash = self.current_index.as_handle();
-        self.program
-            .labels
-            .0
-            .insert(nodeid_hash, Label::new(card_byte_index))
-            .unwrap();
+        // handles are 32 bit hashes: a card's may equal a function's, whose label calls jump to
+        if !self.function_labels.contains(&nodeid_hash) {
+            self.program
+                .labels
+                .0
+                .insert(nodeid_hash, Label::new(card_byte_index))
+                .unwrap();
+        }
 
         match &card.body {
             CardBody::CompositeCard(comp) => {
@@ -808,11 +822,7 @@ impl<'a> Compiler<'a> {
                 let arity = embedded_function.arguments.len() as u32;
                 let handle = u32::try_from(self.program.bytecode.len())
                     .expect("bytecode length to fit into 32 bits");
-                self.program
-                    .labels
-                    .0
-                    .insert(function_handle, Label::new(handle))
-                    .unwrap();
+                self.add_function_label(function_handle, handle)?;
 
                 // process the embedded function inline
                 self.scope_begin();
